@@ -1208,6 +1208,20 @@ theorem onehot_indicator (labels : List Int) (n : Nat) (on off : β) (j c : Nat)
   | none => simp
   | some l => simp [List.getElem?_range hc]
 
+/-- … and nothing else ever appears in the result: every element **is** `on` or `off` (the model is
+parametric in the value type, so no arithmetic can be performed on the two values: `0 / -inf`
+masks, label-smoothing constants and extreme magnitudes come out exactly as given). -/
+theorem onehot_values_exact (labels : List Int) (n : Nat) (on off : β) :
+    ∀ row ∈ onehot labels n on off, ∀ v ∈ row, v = on ∨ v = off := by
+  intro row hrow v hv
+  simp only [onehot, List.mem_map] at hrow
+  obtain ⟨l, _, rfl⟩ := hrow
+  simp only [List.mem_map] at hv
+  obtain ⟨c, _, rfl⟩ := hv
+  split
+  · exact Or.inl rfl
+  · exact Or.inr rfl
+
 theorem onehot_shape (labels : List Int) (n : Nat) (on off : β) :
     (onehot labels n on off).length = labels.length ∧ ∀ row ∈ onehot labels n on off, row.length = n := by
   constructor
